@@ -276,7 +276,7 @@ class C17(Prop):
                     src = strgen.random_string(rng, strgen.TOKENS, 2, 10)
                 else:
                     src, _ = docgen.gen_doc(rng, common.cfg_general(j, 'quick'))
-                yield k, {'w': 'forms', 'src': src.replace('\r', '\n')[:400], 'j': j}
+                yield k, {'w': 'forms', 'src': src[:400], 'j': j}
         for j in range(600 if q else 15000):
             k += 1
             if want(k):
